@@ -4,9 +4,10 @@ From stdpp Require Import strings gmap sets.
 From CG Require Import Base.Cases Base.Oracle Model.Supergates Proofs.SupergatesProofs.
 Open Scope string_scope.
 
-(* The property as a statement about the model (DESIGN.md appendix C).  NOT proved: that the dominator-tree
-   construction always yields single-output blocks whose gates keep their whole fan-in, that the minimal cover
-   loses no gate, and that supergate inputs have disjoint cones, needs the dominator-theoretic argument. *)
+(* The property as a statement about the model (DESIGN.md appendix C).  NOT proved: that in the dominator-tree
+   construction every gate keeps its whole fan-in, that the minimal cover loses no gate, and that supergate inputs
+   have disjoint cones (the dominator-theoretic argument).  Proved parts: C17_construction_partial, C17_model_order_partial;
+   per run the clauses are decided on the implementation's output by the verified checkers (C17_checkers_sound). *)
 Definition wf2 (L : circuit) : Prop :=
   closed L ∧ (∀ n i, L !! n = Some i → size (n_fi i) ≤ 2 ∧ is_bb (n_ty i) = false) ∧ ¬ has_cycle L.
 Definition C17_full : Prop := ∀ L sgs, wf2 L → supergates L = Ok sgs → sg_spec L sgs.
